@@ -609,6 +609,23 @@ def float_tolerances(ctx, repo: Repo, pid: str, fnames=("_add_edges_of_len",)):
                                     src(n)[:140], witness=f"rtol={r_v:g}, atol={a_v:g} (< {TOL_FLOOR:g})")
                     else:
                         ctx.ok("FLOATTOL", f"{pid}.edge_tolerance", f"edge-length test is tolerance based (rtol={r_v:g}, atol={a_v:g})", fi.where, src(n)[:120])
+                if isinstance(n, ast.Compare) and len(n.ops) == 1 and isinstance(n.ops[0], (ast.Gt, ast.GtE, ast.Lt, ast.LtE)):
+                    # an EXACT ordering test of a computed coordinate quantity against the edge length, used to skip a pair before the
+                    # tolerant test is reached
+                    sides = [n.left] + n.comparators
+                    params_ = set(fi.params())
+                    has_len = any(isinstance(x, ast.Name) and x.id in params_ and "len" in x.id for s_ in sides for x in ast.walk(s_))
+                    computed = any(isinstance(x, ast.Call) and src(x.func).split(".")[-1] in ("max", "abs", "norm", "amax", "sum", "sqrt", "dot")
+                                   for s_ in sides for x in ast.walk(s_)) or any(isinstance(o, ast.Name) and o.id in float_names for o in sides)
+                    par_ = getattr(n, "_parent", None)
+                    skips = isinstance(par_, ast.If) and any(isinstance(x, (ast.Continue, ast.Break)) for b_ in par_.body for x in ast.walk(b_))
+                    if has_len and computed and skips:
+                        n_sites += 1
+                        ctx.instance("FLOATTOL")
+                        ctx.violate("FLOATTOL", f"{pid}.edge_tolerance", "an exact ordering test of a computed coordinate difference against the edge "
+                                    "length rejects pairs BEFORE the tolerant test: for coordinates that are not exactly representable the "
+                                    "difference can exceed the length by one ulp, the edge (hence the lattice points on it) is silently lost", fi.where,
+                                    src(n)[:140], witness="|dx| computed as 0.5257311121191337 vs edge_len 0.5257311121191336 -> pair skipped")
                 if isinstance(n, ast.Compare) and len(n.ops) == 1 and isinstance(n.ops[0], (ast.Eq, ast.NotEq)):
                     ops_ = [n.left] + n.comparators
                     if any(isinstance(o, ast.Name) and o.id in float_names for o in ops_):
